@@ -63,7 +63,7 @@ func genC10(r *h.Rng, tier string, idx int) *h.Plan {
 	for i := 0; i < n; i++ {
 		loc := r.Pick(locs)
 		id := r.Pick(own[loc])
-		switch r.Weighted([]int{8, 3, 4, 4, 2, 2, 2, 1, 1, 3}) {
+		switch r.Weighted([]int{8, 3, 4, 4, 2, 2, 2, 1, 1, 3, 2}) {
 		case 0:
 			p.Ops = append(p.Ops, h.Op{K: "addrule", Loc: loc, Id: id, J: mkRule(id)})
 		case 1:
@@ -93,6 +93,11 @@ func genC10(r *h.Rng, tier string, idx int) *h.Plan {
 			p.Ops = append(p.Ops, h.Op{K: "addfact", Loc: loc, Id: id, J: map[string]interface{}{"plain": "data"}})
 		case 8:
 			p.Ops = append(p.Ops, h.Op{K: "clear", Loc: loc})
+		case 10:
+			// the location switched off (or on) for a while: the flag is a property
+			// fact like any other and may carry an expiry; when it runs out the
+			// location is what it was without the flag
+			p.Ops = append(p.Ops, h.Op{K: "addfact", Loc: loc, J: map[string]interface{}{"!enabled": r.Pick([]string{"no", "no", "yes"}), "ttl": fmt.Sprintf("%ds", r.Range(5, 30))}})
 		case 9:
 			// the flag written through the facts API, as the property fact it is
 			// (this form carries no deleteWith; it goes with the rule all the same)
